@@ -844,6 +844,11 @@ func (e *Engine) getPath(st *State, v Val, path []PathEl) Val {
 			}
 			v = x.Elems[i]
 		case T:
+			if x.So == SString {
+				// mutable byte buffer: element read
+				v = app(SInt, "str.to_code", app(SString, "str.at", x, *pe.Idx))
+				continue
+			}
 			// SMT array term: select then reflect
 			es, elemT := arrayElemOf(x, pe)
 			sel := T{S: fmt.Sprintf("(select %s %s)", x.S, pe.Idx.S), So: es}
@@ -891,6 +896,16 @@ func (e *Engine) setPath(st *State, v Val, path []PathEl, nv Val, p *PtrV) Val {
 		c.Elems[i] = e.setPath(st, x.Elems[i], path[1:], nv, p)
 		return c
 	case T:
+		if x.So == SString {
+			// mutable byte buffer: element write
+			nt, ok := nv.(T)
+			if !ok || len(path) != 1 {
+				panic("setPath: bad byte buffer write")
+			}
+			i := *pe.Idx
+			ln := app(SInt, "str.len", x)
+			return app(SString, "str.++", app(SString, "str.substr", x, IntLit(0), i), app(SString, "str.from_code", nt), app(SString, "str.substr", x, Add(i, IntLit(1)), Sub(Sub(ln, i), IntLit(1))))
+		}
 		es, _ := arrayElemOf(x, pe)
 		if len(path) != 1 {
 			panic("setPath: nested path below SMT array element (handled by caller)")
